@@ -610,9 +610,10 @@ func c05RunOS(op c05Op, root string) c05Out {
 		if _, lerr := os.Lstat(p); lerr != nil {
 			err = lerr
 		} else if rerr := os.RemoveAll(p); rerr != nil {
-			// os.RemoveAll reports whichever error its traversal meets first (for instance the ELOOP
-			// of its O_NOFOLLOW probe instead of the EACCES that made the unlink fail): when the
-			// removal fails, only the fact is compared, not the category
+			// os.RemoveAll reports whichever error its traversal meets first; go1.25.0 even returns
+			// its internal errSymlink value (whose Error method panics) instead of the EACCES that
+			// made the unlink of a symbolic link fail. When the removal fails, only the fact is
+			// compared, not the category (and Error() is never called on it).
 			return c05Out{Class: c05AnyFailure}
 		}
 	case "Rename", "PosixRename":
@@ -970,10 +971,26 @@ func c05Part(c *reg.Ctx) *reg.Result {
 	uid := os.Getuid()
 	withMtime := c.Arg("mtime", "1") == "1"
 	depth := c.ArgInt("depth", 2)
-	env := c05NewEnv(scratchDir(), withMtime)
+	var base string
+	if uid == 0 {
+		base = scratchDir()
+	} else {
+		// unprivileged child: work below the directory the privileged parent prepared (it is inside the
+		// parent's scratch directory, so the parent removes whatever modes the trees end up with)
+		cwd, err := os.Getwd()
+		if err != nil {
+			panic(err)
+		}
+		base = filepath.Join(cwd, fmt.Sprintf("trees-%d", os.Getpid()))
+		if err := os.Mkdir(base, 0o755); err != nil {
+			panic(err)
+		}
+	}
+	env := c05NewEnv(base, withMtime)
 	defer func() {
 		env.close()
 		os.Chdir("/")
+		c05ForceRemove(base)
 	}()
 	alphabet := c05Alphabet()
 	res.Notes["alphabet"] = len(alphabet)
@@ -1180,7 +1197,7 @@ func init() {
 				"O_APPEND opens are compared on what the open does to the tree only; RemoveDirectory corresponds to os.Remove; Walk corresponds to kr/fs.Walk over package os; Glob to filepath.Glob; ReadDir/Glob/Walk results are compared as sets",
 			"directories that are readable but not searchable are not in the universe (no seed, no Chmod mode produces one): SFTP READDIR returns attributes with every name, package os lists names without them; " +
 				"nor are writable directories that cannot be read (os.RemoveAll must open the parent directory and fails where a plain recursive removal succeeds)",
-			"RemoveAll: when package os fails inside its traversal only the fact of failure is compared, not the category (os.RemoveAll reports e.g. the ELOOP of its O_NOFOLLOW probe rather than the EACCES that caused it)",
+			"RemoveAll: when package os fails inside its traversal only the fact of failure is compared, not the category (os.RemoveAll reports whichever error its traversal meets first; go1.25.0 returns its internal errSymlink value rather than the EACCES that made unlinking a symbolic link fail)",
 			"mtimes written by the clock during a step are compared as NOW; atime is compared only as 'equals the value Chtimes set'; directory sizes are not compared",
 		},
 		Jobs: func(tier string) []reg.Job {
